@@ -27,6 +27,7 @@ obligations then rest on the correspondence for that item.
 """
 import ast
 import os
+import re
 import warnings
 
 FILES = ['netlist.py', 'netlistmixin.py', 'netfile.py', 'netlistopsmixin.py', 'netlistsimplifymixin.py', 'mna.py']
@@ -41,7 +42,18 @@ QUERIES = ['capacitors', 'inductors', 'voltage_sources', 'current_sources', 'com
            'is_connected', 'node_list', 'branch_list', 'node_map', 'cpts', 'sub', 'kinds', 'sim',
            'get_Vd', 'get_I', 'Vdict', 'Idict', 'analyse', 'circuit_graph', 'modified_nodal_analysis',
            'nodal_analysis', 'mesh_analysis', 'unconnected_nodes', 'netlist',
-           'copy', 'subs', 'kill', 'select', 'simplify', 'remove_dangling', 'expand', 'state_space', 'transfer']
+           'copy', 'subs', 'kill', 'select', 'simplify', 'remove_dangling', 'expand', 'state_space', 'transfer',
+           # graph-based and node-level queries (round 3)
+           'in_series', 'in_parallel', 'across_nodes', 'unreachable_nodes', 'ladder', 'loop_analysis', 'cg',
+           'equipotential_nodes', 'describe', 'thevenin', 'norton', 'impedance', 'admittance', 'twoports',
+           'dependent_sources', 'transformers', 'mutual_couplings', 'control_sources', 'ics', 'is_passive',
+           'is_switching', 'has_transient', 'sources', 'elements', 'nodes', 'Voc', 'Isc', 'voltage_gain']
+
+
+# the fixed battery of read-only observations the harness makes on the same instance after every query op (none of
+# them constructs a netlist); its memo closure is generated as the pseudo-query `battery`
+BATTERY = ['node_list', 'equipotential_nodes', 'unconnected_nodes', 'is_connected', 'branch_list', 'in_series',
+           'in_parallel', 'across_nodes', 'unreachable_nodes', 'ladder', 'cg', 'dependent_sources', 'twoports']
 
 
 def lstr(s):
@@ -205,6 +217,7 @@ class Scan:
         f = cls[meth]
         params = [a.arg for a in f.args.args]
         out = []
+        depth = getattr(self, '_ext_depth', 0)
         for k in pos:
             if k + shift >= len(params):
                 continue
@@ -212,6 +225,28 @@ class Scan:
             for n in ast.walk(f):
                 if isinstance(n, ast.Attribute) and isinstance(n.value, ast.Name) and n.value.id == pn and n.attr not in out:
                     out.append(n.attr)
+            # the netlist is passed on to another class (`CircuitGraph.from_circuit(cct)` inside `LadderNetworkMaker.__init__`)
+            if depth < 3:
+                self._ext_depth = depth + 1
+                try:
+                    for n in ast.walk(f):
+                        if isinstance(n, ast.Call) and any(isinstance(a, ast.Name) and a.id == pn for a in n.args):
+                            c2 = ast.Call(func=n.func, args=[ast.Name(id='self', ctx=ast.Load()) if (isinstance(a, ast.Name) and a.id == pn) else a
+                                                             for a in n.args], keywords=[])
+                            for r in self.ext_refs(c2):
+                                if r not in out:
+                                    out.append(r)
+                finally:
+                    self._ext_depth = depth
+            # a constructor that keeps the netlist (`self.cct = cct`): what the other methods of the class read through it
+            if meth == '__init__':
+                kept = [t.attr for n in ast.walk(f) if isinstance(n, ast.Assign) and isinstance(n.value, ast.Name) and n.value.id == pn
+                        for t in n.targets if isinstance(t, ast.Attribute) and isinstance(t.value, ast.Name) and t.value.id == 'self']
+                for g in cls.values():
+                    for n in ast.walk(g):
+                        if isinstance(n, ast.Attribute) and isinstance(n.value, ast.Attribute) and isinstance(n.value.value, ast.Name) \
+                                and n.value.value.id == 'self' and n.value.attr in kept and n.attr not in out:
+                            out.append(n.attr)
         return out
 
     # ---- self.<attr> references
@@ -422,6 +457,501 @@ class Scan:
                         sites.append('%s:%s.pop()' % (f.name, n.value.func.value.id))
         return sites
 
+
+    # ---- round 3: which nodes `remove` / an overriding `_cpt_add` detach the component from
+    def detach_selection(self, member, in_override_branch=False):
+        """the iteration expression of the loop `for <v> in <iter>: <v>.remove(<cpt>)`:
+        'all' for `<x>.nodes`; (a, b) for a constant slice `<x>.nodes[a:b]` (b = None: to the end);
+        None (and an `unparsed` note) for anything else"""
+        ent = self.members.get(member)
+        if ent is None:
+            self.unparsed.append('no-' + member)
+            return None
+        f = ent[2]
+        scope = [f]
+        if in_override_branch:
+            scope = []
+            for n in ast.walk(f):
+                if isinstance(n, ast.If) and 'in self._elements' in ast.unparse(n.test) and 'not in' not in ast.unparse(n.test):
+                    scope = n.body
+                    break
+        for top in scope:
+            for n in ast.walk(top):
+                if isinstance(n, ast.For) and isinstance(n.target, ast.Name):
+                    v = n.target.id
+                    calls = [c for b in n.body for c in ast.walk(b)
+                             if isinstance(c, ast.Call) and isinstance(c.func, ast.Attribute) and c.func.attr == 'remove'
+                             and isinstance(c.func.value, ast.Name) and c.func.value.id == v]
+                    if not calls:
+                        continue
+                    # anything but the bare call statement in the loop body (a condition, a `continue`) is not understood
+                    if len(n.body) != 1 or not isinstance(n.body[0], ast.Expr) or n.body[0].value is not calls[0]:
+                        self.unparsed.append('%s:detach-loop-body:%s' % (member, ast.unparse(n.body[0])[:50]))
+                        return None
+                    it = n.iter
+                    if isinstance(it, ast.Attribute) and it.attr == 'nodes':
+                        return 'all'
+                    if isinstance(it, ast.Subscript) and isinstance(it.value, ast.Attribute) and it.value.attr == 'nodes' \
+                            and isinstance(it.slice, ast.Slice) and it.slice.step is None:
+                        def cst(x, dflt):
+                            if x is None:
+                                return dflt
+                            if isinstance(x, ast.Constant) and isinstance(x.value, int) and x.value >= 0:
+                                return x.value
+                            return 'bad'
+                        a, b = cst(it.slice.lower, 0), cst(it.slice.upper, None)
+                        if a != 'bad' and b != 'bad':
+                            return (a, b)
+                    self.unparsed.append('%s:detach-loop-iter:%s' % (member, ast.unparse(it)[:50]))
+                    return None
+        self.unparsed.append('%s:no-detach-loop' % member)
+        return None
+
+    # ---- round 3: netlist grammar (which fields of a line are nodes)
+    def grammar_rules(self):
+        """per rule of grammar.py, in order: (type, [param codes]) with codes 'n' (node / pin), 'k:<keyword>',
+        'x' (name / value), and a trailing '?' for an optional parameter"""
+        path = os.path.join(self.repo, 'lcapy', 'grammar.py')
+        try:
+            tree = ast.parse(open(path).read())
+        except Exception:
+            self.unparsed.append('grammar.py')
+            return []
+        consts = {}
+        for node in tree.body:
+            if isinstance(node, ast.Assign) and len(node.targets) == 1 and isinstance(node.targets[0], ast.Name) \
+                    and isinstance(node.value, ast.Constant) and isinstance(node.value.value, str):
+                consts[node.targets[0].id] = node.value.value
+        kinds = {}
+        for line in consts.get('params', '').split('\n'):
+            if ':' in line:
+                nm, rest = line.split(':', 1)
+                kinds[nm] = rest.split(';', 1)[0].strip()
+        out = []
+        for line in consts.get('rules', '').split('\n'):
+            if ':' not in line:
+                continue
+            body = line.split(':', 1)[1].split(';', 1)[0].strip()
+            fields = body.split(' ')
+            if not fields[0].endswith('name'):
+                self.unparsed.append('grammar-rule:' + line[:40])
+                continue
+            ctype = fields[0][:-4]
+            codes = []
+            ok = True
+            for ps in fields[1:]:
+                opt = ps.startswith('[')
+                pn = ps[1:-1] if opt else ps
+                pn = pn.split('=')[0]
+                k = kinds.get(pn)
+                if k in ('node', 'pin'):
+                    c = 'n'
+                elif k == 'keyword':
+                    c = 'k:' + pn
+                elif k in ('name', 'value'):
+                    c = 'x'
+                elif k == 'nodelist':
+                    c = 'x'
+                else:
+                    ok = False
+                    break
+                codes.append(c + ('?' if opt else ''))
+            if not ok:
+                self.unparsed.append('grammar-rule-param:' + line[:40])
+                continue
+            out.append((ctype, codes))
+        return out
+
+    # ---- round 3: error handling of `add`
+    def add_error_handling(self):
+        """(restores, invalidates): in `add`, are `state.restore_context()` / `self._invalidate()` reached when
+        `_add` raises, i.e. do they stand in the `finally` block (or an `except` that re-raises) of a `try`
+        whose body calls `self._add`?"""
+        ent = self.members.get('add')
+        if ent is None:
+            return (False, False)
+        f = ent[2]
+        res = inv = False
+        for n in ast.walk(f):
+            if isinstance(n, ast.Try) and any(isinstance(c, ast.Call) and isinstance(c.func, ast.Attribute) and c.func.attr == '_add'
+                                               for b in n.body for c in ast.walk(b)):
+                blocks = list(n.finalbody)
+                for h in n.handlers:
+                    if any(isinstance(x, ast.Raise) for x in h.body):
+                        blocks += h.body
+                txt = ' '.join(ast.unparse(b) for b in blocks)
+                res = res or 'restore_context' in txt
+                inv = inv or 'self._invalidate()' in txt
+        return (res, inv)
+
+    def failed_add_detaches(self):
+        """is a component whose construction or registration raises detached from the nodes its constructor
+        attached it to?  True iff (a) `Cpt.__init__` (mnacpts.py) attaches to the nodes only after everything that can
+        raise, or undoes the attachment in an `except` that re-raises, and (b) `_add` undoes it when `_cpt_add` raises.
+        Returns (ctor_safe, register_safe)."""
+        ctor_safe = False
+        path = os.path.join(self.repo, 'lcapy', 'mnacpts.py')
+        try:
+            with warnings.catch_warnings():
+                warnings.simplefilter('ignore')
+                tree = ast.parse(open(path).read())
+            init = None
+            for cls in [n for n in tree.body if isinstance(n, ast.ClassDef) and n.name == 'Cpt']:
+                for f in cls.body:
+                    if isinstance(f, ast.FunctionDef) and f.name == '__init__':
+                        init = f
+            if init is None:
+                self.unparsed.append('mnacpts.Cpt.__init__')
+            else:
+                attach_line = None
+                for n in ast.walk(init):
+                    if isinstance(n, ast.Call) and isinstance(n.func, ast.Attribute) and n.func.attr == 'add' \
+                            and ast.unparse(n.func.value).endswith('.nodes'):
+                        attach_line = n.lineno if attach_line is None else min(attach_line, n.lineno)
+                risky = [n.lineno for n in ast.walk(init) if isinstance(n, ast.Call) and (
+                    (isinstance(n.func, ast.Attribute) and n.func.attr in ('_process_args', 'check'))
+                    or (isinstance(n.func, ast.Name) and n.func.id in ('newclass', 'Opts')))]
+                guarded = False
+                for n in ast.walk(init):
+                    if isinstance(n, ast.Try):
+                        for h in n.handlers:
+                            t = ' '.join(ast.unparse(b) for b in h.body)
+                            if '.remove(self)' in t and any(isinstance(x, ast.Raise) for x in h.body):
+                                guarded = True
+                if attach_line is None:
+                    self.unparsed.append('mnacpts.Cpt.__init__:no-node-attachment')
+                else:
+                    ctor_safe = guarded or all(r < attach_line for r in risky)
+        except Exception:
+            self.unparsed.append('mnacpts.py')
+        reg_safe = False
+        ent = self.members.get('_add')
+        if ent is not None:
+            for n in ast.walk(ent[2]):
+                if isinstance(n, ast.Try) and any(isinstance(c, ast.Call) and isinstance(c.func, ast.Attribute) and c.func.attr == '_cpt_add'
+                                                   for b in n.body for c in ast.walk(b)):
+                    for h in n.handlers:
+                        t = ' '.join(ast.unparse(b) for b in h.body)
+                        if '.remove(' in t and any(isinstance(x, ast.Raise) for x in h.body):
+                            reg_safe = True
+        return (ctor_safe, reg_safe)
+
+    def reserved_names(self):
+        """names that `hasattr(self, name)` finds on a netlist: members of the scanned classes"""
+        return sorted(self.members.keys())
+
+    # ---- round 3: cached objects handed out by reference, and who mutates them
+    MUTATING = ('append', 'extend', 'insert', 'pop', 'remove', 'clear', 'update', 'add', 'discard', 'setdefault',
+                'popitem', 'sort', 'reverse', 'remove_edge', 'remove_edges_from', 'remove_node', 'remove_nodes_from',
+                'add_edge', 'add_edges_from', 'add_node', 'add_nodes_from', '__setitem__', '__delitem__')
+
+    def all_classes(self):
+        """{class name: (file, ClassDef)} over every module of the package"""
+        if hasattr(self, '_allcls'):
+            return self._allcls
+        out = {}
+        d = os.path.join(self.repo, 'lcapy')
+        for fn in sorted(os.listdir(d)):
+            if not fn.endswith('.py'):
+                continue
+            try:
+                src = open(os.path.join(d, fn)).read()
+                if 'class ' not in src:
+                    continue
+                with warnings.catch_warnings():
+                    warnings.simplefilter('ignore')
+                    tree = ast.parse(src)
+            except Exception:
+                continue
+            for cls in [n for n in tree.body if isinstance(n, ast.ClassDef)]:
+                out.setdefault(cls.name, (fn, cls))
+        self._allcls = out
+        return out
+
+    def cached_accessors(self):
+        """{accessor name: slot}: memoised members, the accessors of hasattr slots, and plain properties / methods
+        whose body is `return self.<accessor>` or `return self.<accessor>(...)`"""
+        acc = {}
+        for slot in self.memo_order:
+            acc[slot] = slot
+            acc[self.memo[slot][3]] = slot
+        changed = True
+        while changed:
+            changed = False
+            for name, (fn, cname, f) in self.members.items():
+                if name in acc:
+                    continue
+                body = [b for b in f.body if not (isinstance(b, ast.Expr) and isinstance(b.value, ast.Constant))]
+                if len(body) == 1 and isinstance(body[0], ast.Return) and body[0].value is not None:
+                    v = body[0].value
+                    if isinstance(v, ast.Call):
+                        v = v.func
+                    if isinstance(v, ast.Attribute) and isinstance(v.value, ast.Name) and v.value.id == 'self' and v.attr in acc:
+                        acc[name] = acc[v.attr]
+                        changed = True
+        return acc
+
+    def slot_class(self, slot):
+        """class of the object a memoised member returns, when its body returns `<Class>(...)` / `<Class>.<ctor>(...)`"""
+        acc = self.memo[slot][3]
+        ent = self.members.get(acc)
+        if ent is None:
+            return None
+        classes = self.all_classes()
+        for n in ast.walk(ent[2]):
+            v = None
+            if isinstance(n, ast.Return) and n.value is not None:
+                v = n.value
+            elif isinstance(n, ast.Assign) and any(isinstance(t, ast.Attribute) and t.attr == slot for t in n.targets):
+                v = n.value
+            if isinstance(v, ast.Call):
+                fu = v.func
+                if isinstance(fu, ast.Name) and fu.id in classes:
+                    return fu.id
+                if isinstance(fu, ast.Attribute) and isinstance(fu.value, ast.Name) and fu.value.id in classes:
+                    return fu.value.id
+        return None
+
+    def mutating_methods(self, cname):
+        """methods of class `cname` that change the receiver: assignment / deletion of `self.a`, `self.a[...]` outside
+        `__init__`, a call of a container-mutating method on `self.a` or on a local alias of it, or a call of another
+        such method of the class"""
+        classes = self.all_classes()
+        if cname not in classes:
+            return None
+        cls = classes[cname][1]
+        meths = {f.name: f for f in cls.body if isinstance(f, ast.FunctionDef)}
+        mut = set()
+
+        def selfattr(x, aliases):
+            # x denotes self.a (or an alias, or a subscript / attribute of one)
+            while isinstance(x, (ast.Subscript, ast.Attribute)) and not (
+                    isinstance(x, ast.Attribute) and isinstance(x.value, ast.Name) and x.value.id == 'self'):
+                x = x.value
+            if isinstance(x, ast.Attribute) and isinstance(x.value, ast.Name) and x.value.id == 'self':
+                return True
+            return isinstance(x, ast.Name) and x.id in aliases
+
+        def direct(f):
+            if f.name in ('__init__', '__new__'):
+                return False
+            aliases = set()
+            for n in ast.walk(f):
+                if isinstance(n, ast.Assign) and len(n.targets) == 1 and isinstance(n.targets[0], ast.Name) \
+                        and isinstance(n.value, ast.Attribute) and isinstance(n.value.value, ast.Name) and n.value.value.id == 'self':
+                    aliases.add(n.targets[0].id)
+            # `if hasattr(self, '_x'): return self._x ... self._x = <computed>` fills a memo; it does not change what the object denotes
+            memo_attrs = {c.args[1].value for c in ast.walk(f)
+                          if isinstance(c, ast.Call) and getattr(c.func, 'id', None) == 'hasattr' and len(c.args) == 2
+                          and isinstance(c.args[1], ast.Constant)}
+            for n in ast.walk(f):
+                if isinstance(n, (ast.Assign, ast.AugAssign, ast.Delete)):
+                    tg = n.targets if isinstance(n, (ast.Assign, ast.Delete)) else [n.target]
+                    for t in tg:
+                        if isinstance(t, ast.Attribute) and isinstance(t.value, ast.Name) and t.value.id == 'self' \
+                                and t.attr in memo_attrs and isinstance(n, ast.Assign):
+                            continue
+                        if isinstance(t, (ast.Attribute, ast.Subscript)) and selfattr(t, aliases) and not isinstance(t, ast.Name):
+                            return True
+                if isinstance(n, ast.Call) and isinstance(n.func, ast.Attribute) and n.func.attr in self.MUTATING \
+                        and selfattr(n.func.value, aliases) and not (isinstance(n.func.value, ast.Name) and n.func.value.id == 'self'):
+                    return True
+            return False
+        for nm, f in meths.items():
+            if direct(f):
+                mut.add(nm)
+        changed = True
+        while changed:
+            changed = False
+            for nm, f in meths.items():
+                if nm in mut or nm in ('__init__', '__new__'):
+                    continue
+                for n in ast.walk(f):
+                    if isinstance(n, ast.Call) and isinstance(n.func, ast.Attribute) and isinstance(n.func.value, ast.Name) \
+                            and n.func.value.id == 'self' and n.func.attr in mut:
+                        mut.add(nm)
+                        changed = True
+                        break
+        return mut
+
+    def shared_cached_objects(self):
+        """(handouts, mutations, damages)
+        handouts : (class, attribute-or-local, accessor, slot)  a helper class keeps a reference to a cached object of
+                   a netlist it was given (`self.cg = cct.cg`, `node_map = cct.node_map`)
+        mutations: (class, method, attribute, slot, call)        ... and calls a mutating method on it / assigns into it;
+                   also netlist members doing so on their own cached object (`self.cg.remove_edges(...)`)
+        damages  : (query, slot)  public netlist members that construct such a mutating helper with `self`"""
+        acc = self.cached_accessors()
+        classes = self.all_classes()
+        slotcls = {s: self.slot_class(s) for s in self.memo_order}
+        mutm = {}
+
+        def mutating(slot, meth):
+            c = slotcls.get(slot)
+            if c is not None:
+                if c not in mutm:
+                    mutm[c] = self.mutating_methods(c) or set()
+                if meth in mutm[c]:
+                    return True
+                if meth in {f.name for f in classes[c][1].body if isinstance(f, ast.FunctionDef)}:
+                    return False
+            return meth in self.MUTATING or meth.startswith(('remove_', 'add_', 'set_', 'del_', 'clear', 'update'))
+        handouts, mutations = [], []
+        netlist_classes = set(CLASS_ORDER)
+        for cname, (fn, cls) in sorted(classes.items()):
+            held = {}        # attribute of self -> slot
+            for f in [n for n in cls.body if isinstance(n, ast.FunctionDef)]:
+                for n in ast.walk(f):
+                    if isinstance(n, ast.Assign) and len(n.targets) == 1:
+                        v = n.value.func if isinstance(n.value, ast.Call) else n.value
+                        if isinstance(v, ast.Attribute) and v.attr in acc and not isinstance(v.value, ast.Call):
+                            owner = ast.unparse(v.value)
+                            if cname in netlist_classes and owner == 'self':
+                                continue
+                            # the owner must look like a netlist handle: a parameter / attribute named cct, netlist, circuit, ...
+                            if not any(k in owner.lower() for k in ('cct', 'netlist', 'circuit', 'net')):
+                                continue
+                            t = n.targets[0]
+                            if isinstance(t, ast.Attribute) and isinstance(t.value, ast.Name) and t.value.id == 'self':
+                                held[t.attr] = acc[v.attr]
+                                handouts.append((cname, 'self.' + t.attr, v.attr, acc[v.attr]))
+                            elif isinstance(t, ast.Name):
+                                handouts.append((cname, f.name + ':' + t.id, v.attr, acc[v.attr]))
+            for f in [n for n in cls.body if isinstance(n, ast.FunctionDef)]:
+                local = {}       # local alias -> (attr, slot)
+                for n in ast.walk(f):
+                    if isinstance(n, ast.Assign) and len(n.targets) == 1 and isinstance(n.targets[0], ast.Name):
+                        v = n.value.func if isinstance(n.value, ast.Call) else n.value
+                        if isinstance(v, ast.Attribute) and isinstance(v.value, ast.Name) and v.value.id == 'self' and v.attr in held:
+                            local[n.targets[0].id] = ('self.' + v.attr, held[v.attr])
+                        elif isinstance(v, ast.Attribute) and v.attr in acc and not isinstance(v.value, ast.Call) \
+                                and (cname not in netlist_classes or ast.unparse(v.value) != 'self') \
+                                and any(k in ast.unparse(v.value).lower() for k in ('cct', 'netlist', 'circuit', 'net')):
+                            local[n.targets[0].id] = (ast.unparse(v), acc[v.attr])
+
+                def target_of(x):
+                    """(description, slot) if x denotes a held cached object (or something inside it)"""
+                    base = x
+                    while isinstance(base, (ast.Subscript, ast.Attribute)):
+                        if isinstance(base, ast.Attribute) and isinstance(base.value, ast.Name) and base.value.id == 'self' and base.attr in held:
+                            return ('self.' + base.attr, held[base.attr])
+                        if isinstance(base, ast.Attribute) and base.attr in acc and cname in netlist_classes \
+                                and isinstance(base.value, ast.Name) and base.value.id == 'self':
+                            return ('self.' + base.attr, acc[base.attr])
+                        if isinstance(base, ast.Attribute) and base.attr in acc and cname not in netlist_classes \
+                                and any(k in ast.unparse(base.value).lower() for k in ('cct', 'netlist', 'circuit')):
+                            return (ast.unparse(base), acc[base.attr])
+                        base = base.value
+                    if isinstance(base, ast.Name) and base.id in local:
+                        return local[base.id]
+                    return None
+                if cname in netlist_classes and f.name in ('_invalidate',):
+                    continue
+                for n in ast.walk(f):
+                    if isinstance(n, ast.Call) and isinstance(n.func, ast.Attribute):
+                        tg = target_of(n.func.value)
+                        if tg is not None and mutating(tg[1], n.func.attr):
+                            mutations.append((cname, f.name, tg[0], tg[1], n.func.attr))
+                    if isinstance(n, (ast.Assign, ast.AugAssign, ast.Delete)):
+                        tgs = n.targets if isinstance(n, (ast.Assign, ast.Delete)) else [n.target]
+                        for t in tgs:
+                            if isinstance(t, (ast.Subscript, ast.Attribute)):
+                                # assigning INTO the cached object (not rebinding self.attr itself)
+                                inner = t.value
+                                tg = target_of(inner) if isinstance(inner, (ast.Subscript, ast.Attribute, ast.Name)) else None
+                                if tg is not None and not (cname in netlist_classes and isinstance(t, ast.Attribute)
+                                                           and isinstance(t.value, ast.Name) and t.value.id == 'self'):
+                                    mutations.append((cname, f.name, tg[0], tg[1], 'item/attribute assignment'))
+        # de-duplicate, keep order
+        def uniq(xs):
+            out = []
+            for x in xs:
+                if x not in out:
+                    out.append(x)
+            return out
+        handouts, mutations = uniq(handouts), uniq(mutations)
+        # which public members construct a mutating helper class with `self`
+        bad_helpers = {}
+        for (cname, meth, attr, slot, call) in mutations:
+            bad_helpers.setdefault(cname, set()).add(slot)
+        damages = []
+        for q in QUERIES:
+            if q not in self.members:
+                continue
+            seen = set()
+
+            def visit(name):
+                if name in seen:
+                    return
+                seen.add(name)
+                ent = self.members.get(name)
+                if ent is None:
+                    return
+                for n in ast.walk(ent[2]):
+                    if isinstance(n, ast.Call):
+                        fu = n.func
+                        cn = fu.id if isinstance(fu, ast.Name) else (fu.value.id if isinstance(fu, ast.Attribute) and isinstance(fu.value, ast.Name) else None)
+                        if cn in bad_helpers and any(isinstance(a, ast.Name) and a.id == 'self' for a in n.args):
+                            for s in sorted(bad_helpers[cn]):
+                                if (q, s) not in damages:
+                                    damages.append((q, s))
+                    if isinstance(n, ast.Attribute) and isinstance(n.value, ast.Name) and n.value.id == 'self' \
+                            and n.attr in self.members and n.attr not in self.memo:
+                        visit(n.attr)
+            visit(q)
+            for (cname, meth, attr, slot, call) in mutations:
+                if cname in netlist_classes and meth in seen and (q, slot) not in damages:
+                    damages.append((q, slot))
+        return handouts, mutations, damages
+
+    # ---- round 3: process-wide settings
+    def settings(self):
+        """(name, default, where) of the process-wide settings: constant attributes set in `State.__init__` (state.py)
+        and module-level constants of config.py that some other module imports by name; plus, per setting, the modules
+        that read it"""
+        out = []
+        d = os.path.join(self.repo, 'lcapy')
+        try:
+            tree = ast.parse(open(os.path.join(d, 'state.py')).read())
+            for cls in [n for n in tree.body if isinstance(n, ast.ClassDef) and n.name == 'State']:
+                for f in [n for n in cls.body if isinstance(n, ast.FunctionDef) and n.name == '__init__']:
+                    for n in f.body:
+                        if isinstance(n, ast.Assign) and len(n.targets) == 1 and isinstance(n.targets[0], ast.Attribute) \
+                                and isinstance(n.targets[0].value, ast.Name) and n.targets[0].value.id == 'self':
+                            v = n.value
+                            if isinstance(v, ast.Constant) or isinstance(v, ast.Name):
+                                out.append(('state.' + n.targets[0].attr, ast.unparse(v)))
+        except Exception:
+            self.unparsed.append('state.py')
+        cfg_names = []
+        try:
+            tree = ast.parse(open(os.path.join(d, 'config.py')).read())
+            for n in tree.body:
+                if isinstance(n, ast.Assign) and len(n.targets) == 1 and isinstance(n.targets[0], ast.Name) \
+                        and isinstance(n.value, ast.Constant) and not isinstance(n.value.value, (bytes,)):
+                    cfg_names.append((n.targets[0].id, ast.unparse(n.value)))
+        except Exception:
+            self.unparsed.append('config.py')
+        readers = {}
+        for fn in sorted(os.listdir(d)):
+            if not fn.endswith('.py') or fn in ('state.py', 'config.py'):
+                continue
+            try:
+                src = open(os.path.join(d, fn)).read()
+            except Exception:
+                continue
+            for (nm, _) in out:
+                a = nm.split('.', 1)[1]
+                if ('state.' + a) in src:
+                    readers.setdefault(nm, []).append(fn)
+            if 'config' in src:
+                for (nm, _) in cfg_names:
+                    if re.search(r'from \.config import[^\n]*\b%s\b' % re.escape(nm), src) or ('config.' + nm) in src:
+                        readers.setdefault('config.' + nm, []).append(fn)
+        res = [(nm, dv, readers.get(nm, [])) for (nm, dv) in out]
+        res += [('config.' + nm, dv, readers.get('config.' + nm, [])) for (nm, dv) in cfg_names]
+        return res
+
     # ---- transformers
     def transformers(self):
         out = []
@@ -514,6 +1044,13 @@ def generate(repo):
         reads.append((q, sc.closure(q)))
     for q in missing:
         sc.unparsed.append('query-not-found:' + q)
+    bat = []
+    rd = dict(reads)
+    for q in BATTERY:
+        for d in rd.get(q, []):
+            if d not in bat:
+                bat.append(d)
+    reads.append(('battery', bat))
     spawns = [s for s in sc.memo_order if sc.reaches(s, '_new')]
     spawn_members = [q for q in QUERIES if q in sc.members and q not in sc.memo and sc.reaches(q, '_new')]
     init_inv = False
@@ -526,11 +1063,24 @@ def generate(repo):
     sites = sc.set_iteration_sites()
     trs = sc.transformers()
     mutd = {m[0]: m[1] for m in muts}
+    rsel = sc.detach_selection('remove')
+    osel = sc.detach_selection('_cpt_add', True) if detach else 'all'
+    rules = sc.grammar_rules()
+    restores_on_err, inv_on_err = sc.add_error_handling()
+    ctor_safe, reg_safe = sc.failed_add_detaches()
+    reserved = sc.reserved_names()
+    handouts, mutations, damages = sc.shared_cached_objects()
+    settings = sc.settings()
     info = {'memoised': [m[0] for m in memo], 'cleared': cleared,
             'not_cleared': [m[0] for m in memo if m[0] not in cleared],
             'mutators': muts, 'initInvalidates': init_inv, 'overrideDetaches': detach, 'keepConnectedNode': keepn,
             'deps': deps, 'reads': reads, 'spawns': spawns, 'setIterationSites': sites,
-            'transformers': [(t[0], t[2], t[3]) for t in trs], 'unparsed': sc.unparsed}
+            'transformers': [(t[0], t[2], t[3]) for t in trs], 'unparsed': sc.unparsed,
+            'removeSel': rsel, 'overrideSel': osel, 'rules': len(rules),
+            'addRestoresContextOnError': restores_on_err, 'addInvalidatesOnError': inv_on_err,
+            'ctorDetachesOnError': ctor_safe, 'registerDetachesOnError': reg_safe,
+            'sharedHandouts': handouts, 'sharedMutations': mutations, 'damages': damages,
+            'settings': [(a, b) for (a, b, c) in settings if c], 'reserved': len(reserved)}
 
     kindmap = {'lru': '.lru', 'cprop': '.cprop', 'hasattr': '.hasattr'}
     L = []
@@ -567,6 +1117,9 @@ def generate(repo):
     L.append('/-- memoised members / operations that create a new Netlist while running -/')
     L.append('def spawns : List String := ' + llist([lstr(s) for s in spawns + spawn_members]))
     L.append('')
+    L.append('/-- (public member, slot): the member hands the cached object of `slot` to code that mutates it -/')
+    L.append('def damages : List (String × String) := ' + llist(['(%s, %s)' % (lstr(a), lstr(b)) for (a, b) in damages]))
+    L.append('')
     L.append('def config : Config where')
     L.append('  memoised := memoised')
     L.append('  cleared := cleared')
@@ -581,6 +1134,48 @@ def generate(repo):
     L.append('  deps := deps')
     L.append('  reads := reads')
     L.append('  spawns := spawns')
+
+    def sel(x):
+        if x == 'all':
+            return '.all'
+        if x is None:
+            return '.slice 0 (some 0)   /- not understood: see translator-unparsed -/'
+        return '.slice %d %s' % (x[0], 'none' if x[1] is None else '(some %d)' % x[1])
+    L.append('  removeSel := ' + sel(rsel))
+    L.append('  overrideSel := ' + sel(osel))
+    L.append('  damages := damages')
+    L.append('  failedAddDetaches := %s' % ('true' if (ctor_safe and reg_safe) else 'false'))
+    L.append('  addInvalidatesOnError := %s' % ('true' if inv_on_err else 'false'))
+    L.append('')
+    L.append('/-- `add` restores the symbol context (`state.restore_context()`) also when `_add` raises -/')
+    L.append('def addRestoresContextOnError : Bool := %s' % ('true' if restores_on_err else 'false'))
+    L.append('')
+    L.append('/-- `Cpt.__init__` leaves no node attachment behind when it raises / `_add` detaches when `_cpt_add` raises -/')
+    L.append('def ctorDetachesOnError : Bool := %s' % ('true' if ctor_safe else 'false'))
+    L.append('def registerDetachesOnError : Bool := %s' % ('true' if reg_safe else 'false'))
+    L.append('')
+    L.append('/-- grammar.py, rule by rule: component type and the kind of each field after the name')
+    L.append('    (`n` node / pin, `k:<kw>` keyword, `x` name or value; a trailing `?` marks an optional field) -/')
+    L.append('def rules : List (String × List String) := [')
+    L.append(',\n'.join('  (%s, %s)' % (lstr(t), llist([lstr(c) for c in cs])) for (t, cs) in rules))
+    L.append(']')
+    L.append('')
+    L.append('/-- names `hasattr(netlist, name)` finds (members of the netlist classes): not available as component names -/')
+    L.append('def reserved : List String := ' + llist([lstr(r) for r in reserved]))
+    L.append('')
+    L.append('/-- helper classes that keep a reference to a cached object of the netlist they are given:')
+    L.append('    (class, where it is kept, accessor used, memo slot) -/')
+    L.append('def sharedHandouts : List (String × String × String × String) := ' +
+             llist(['(%s, %s, %s, %s)' % tuple(lstr(x) for x in h) for h in handouts]))
+    L.append('')
+    L.append('/-- ... and call a mutating method on it / assign into it: (class, method, object, memo slot, call) -/')
+    L.append('def sharedMutations : List (String × String × String × String × String) := ' +
+             llist(['(%s, %s, %s, %s, %s)' % tuple(lstr(x) for x in m) for m in mutations]))
+    L.append('')
+    L.append('/-- process-wide settings (state.py `State.__init__`, config.py) that some module reads: (name, default, readers) -/')
+    L.append('def settings : List (String × String × List String) := [')
+    L.append(',\n'.join('  (%s, %s, %s)' % (lstr(a), lstr(b), llist([lstr(x) for x in c])) for (a, b, c) in settings if c))
+    L.append(']')
     L.append('')
     L.append('/-- per transformer class: (kwarg, default) pairs used by `key()` and pairs read elsewhere in the class -/')
     L.append('def transformers : List (String × List (String × String) × List (String × String)) := [')
